@@ -399,6 +399,11 @@ struct ReaderStatsSnapshot {
     split: bool,
 }
 
+/// A media type under which a JSON request body (or operations part) may legitimately arrive.
+fn json_media_type() -> String {
+    ["application/json", "application/json; charset=utf-8", "application/graphql+json", "application/graphql-response+json", "APPLICATION/JSON", "application/graphql+json; charset=utf-8", "Application/GraphQL+JSON"][draw(7) as usize].to_string()
+}
+
 fn c23_encodings(faults: bool, out: &mut CaseOut) {
     let r = gen_req();
     let single = serde_json::to_vec(&req_json(&r)).unwrap();
@@ -409,18 +414,20 @@ fn c23_encodings(faults: bool, out: &mut CaseOut) {
     let batch = serde_json::to_vec(&J::Array(batch_items)).unwrap();
     let qs = req_query_string(&r);
     let mp = multipart_body(&[
-        Part { name: "operations".into(), filename: None, content_type: if chance(1, 2) { Some("application/json".into()) } else { None }, data: single.clone() },
+        Part { name: "operations".into(), filename: None, content_type: if chance(1, 2) { Some(json_media_type()) } else { None }, data: single.clone() },
         Part { name: "map".into(), filename: None, content_type: None, data: b"{}".to_vec() },
     ]);
-    let desc = format!("request {}", req_json(&r));
+    let json_ct = if chance(1, 2) { Some(json_media_type()) } else { None };
+    let batch_ct = json_media_type();
+    let desc = format!("request {}; content types: body {:?}, batch {:?}", req_json(&r), json_ct, batch_ct);
     if r.operation_name.is_some() {
         sim::count("probe:get-operation-name-present");
     }
     // reference: one chunk, no faults
     let one = ReaderPlan::default();
     let bodies: Vec<(&str, Option<String>, Vec<u8>, bool)> = vec![
-        ("json", if chance(1, 2) { Some("application/json".to_string()) } else { None }, single.clone(), false),
-        ("batch", Some("application/json".to_string()), batch.clone(), true),
+        ("json", json_ct.clone(), single.clone(), false),
+        ("batch", Some(batch_ct.clone()), batch.clone(), true),
         ("multipart", Some(mp_content_type()), mp.clone(), false),
     ];
     let mut decoded: BTreeMap<&str, J> = BTreeMap::new();
@@ -610,7 +617,7 @@ fn c23_batch(out: &mut CaseOut) {
 fn c23_malformed(out: &mut CaseOut) {
     let r = gen_req();
     let good = serde_json::to_vec(&req_json(&r)).unwrap();
-    let kind = draw(14);
+    let kind = draw(16);
     let (label, result): (String, Option<DecodeRes>) = match kind {
         0 => {
             // JSON cut in the middle of the document
@@ -651,6 +658,32 @@ fn c23_malformed(out: &mut CaseOut) {
         10 => {
             let body = serde_json::to_vec(&json!({"query": "{ id }", "operationName": 5})).unwrap();
             ("operationName is a number".to_string(), decode_body("malformed", None, body, draw_plan(false, 10), false).0)
+        }
+        14 | 15 => {
+            // a JSON array that is neither a request object nor a non-empty batch of request objects:
+            // the empty array, arrays of strings ("positional" requests), arrays of arrays
+            let doc = match draw(6) {
+                0 => json!([]),
+                1 => json!([r.query]),
+                2 => json!([r.query, "Q"]),
+                3 => json!([[r.query]]),
+                4 => json!([req_json(&r), [r.query]]),
+                _ => json!([[]]),
+            };
+            let body = serde_json::to_vec(&doc).unwrap();
+            let plan = draw_plan(false, body.len());
+            match draw(3) {
+                0 => (format!("json body {doc} read as a single request"), decode_body("malformed", Some("application/json".into()), body, plan, false).0),
+                1 => (format!("json body {doc} read as a batch"), decode_body("malformed", None, body, plan, true).0),
+                _ => {
+                    let mp = multipart_body(&[
+                        Part { name: "operations".into(), filename: None, content_type: None, data: body },
+                        Part { name: "map".into(), filename: None, content_type: None, data: b"{}".to_vec() },
+                    ]);
+                    let plan = draw_plan(false, mp.len());
+                    (format!("multipart operations {doc}"), decode_body("malformed", Some(mp_content_type()), mp, plan, chance(1, 2)).0)
+                }
+            }
         }
         11..=13 => {
             // one member of the request has the wrong JSON type, in any of the four encodings
